@@ -433,6 +433,35 @@ def bitflips(rnd, data, n, fix=True):
     return out
 
 
+def ext_record_sequences(rnd, q):
+    """every order of up to three extension records (GNU long name / long link, PAX records that do or do not carry
+    path / linkpath / numeric fields, a global PAX header) in front of one header, followed by a plain entry:
+    what one record sets out-of-band must survive, or be dropped by, the next one exactly as read_header's
+    accumulation says (stale set_by_pax bits, a PAX record wiping a long name, state leaking into the next entry)."""
+    import itertools
+    kinds = {
+        "L": lambda: long_entry(b"L", b"long/" + b"n" * 120),
+        "K": lambda: long_entry(b"K", b"target/" + b"t" * 130),
+        "xp": lambda: pax_entry([pax_rec(b"path", b"pax/" + b"p" * 110)]),
+        "xl": lambda: pax_entry([pax_rec(b"linkpath", b"paxlink/" + b"l" * 105)]),
+        "xm": lambda: pax_entry([pax_rec(b"mtime", b"1234567890.5")]),
+        "xu": lambda: pax_entry([pax_rec(b"uid", b"70000"), pax_rec(b"gid", b"70001")]),
+        "xs": lambda: pax_entry([pax_rec(b"size", b"3")]),
+        "xx": lambda: pax_entry([pax_rec(b"SCHILY.xattr.user.a", b"v")]),
+        "g": lambda: pax_entry([pax_rec(b"mtime", b"7")], name=b"glob", typ=b"g"),
+    }
+    names = sorted(kinds)
+    seqs = [c for n in (1, 2) for c in itertools.product(names, repeat=n)]
+    tri = list(itertools.product(names, repeat=3))
+    seqs += tri if not q else rnd.sample(tri, 160)
+    out = []
+    for sq in seqs:
+        pre = b"".join(kinds[k]() for k in sq)
+        for tail in (file_entry(b"short", b"abc"), Hdr(b"sl", b"2", 0, link=b"tgt").bytes()):
+            out.append(("extseq:" + "+".join(sq), pre + tail + file_entry(b"next", b"xy") + END))
+    return out
+
+
 def tar_cases(rnd, tier):
     """list of (tag, bytes)"""
     q = tier == "quick"
@@ -440,6 +469,7 @@ def tar_cases(rnd, tier):
     bases = base_archives()
     for tag, d in bases:
         cases.append(("base:" + tag, d))
+    cases += ext_record_sequences(rnd, q)
     for tag, d in bases:
         for m in mutate_headers(rnd, tag, d, 60 if q else 600):
             cases.append(("hdr:" + tag, m))
